@@ -45,80 +45,99 @@ pub fn special(k: usize) -> Program {
             p.ops.push(Op::Image(image(1, false, 1004, 7)));
             p.ops.push(Op::Image(image(2, true, 20, 8)));
         }
-        _ => {
-            p.ops.push(Op::Cloud(cloud(xyz(F32), 85, 9))); // section ends exactly at a page end (1020 = 48+32+... not quite, close)
+        11 => {
+            p.ops.push(Op::Cloud(cloud(xyz(F32), 85, 9)));
             p.ops.push(Op::Blob(pattern(6, 3)));
+        }
+        12 => {
+            // the 16-byte header of the second blob straddles the end of page 0 (in-page offset 1008)
+            p.ops.push(Op::Blob(pattern(7, 944)));
+            p.ops.push(Op::Blob(pattern(8, 100)));
+        }
+        _ => {
+            // the 32-byte section header of the cloud straddles the end of page 0 (in-page offset 1000)
+            p.ops.push(Op::Blob(pattern(9, 936)));
+            p.ops.push(Op::Cloud(cloud(xyz(F32), 5, 10)));
         }
     }
     p
 }
-const N_SPECIAL: usize = 12;
+pub const N_SPECIAL: usize = 14;
 
-fn program(ctx: &Ctx) -> Program {
+fn program_d(ctx: &Ctx, shallow: bool) -> Program {
     let kind = ctx.pick("program-kind", 2);
     if kind == 0 {
         special(ctx.pick("special", N_SPECIAL))
     } else {
-        pick_program(ctx, if ctx.tier_thorough { 3 } else { 2 })
+        let d = if ctx.tier_thorough { 3 } else { 2 };
+        pick_program(ctx, if shallow { d - 1 } else { d })
     }
 }
+fn program(ctx: &Ctx) -> Program {
+    program_d(ctx, false)
+}
 
-struct Complete {
+/// one completed file (the device content right after a successful top-level finalize)
+struct Done {
     bytes: Vec<u8>,
-    log: Vec<DevOp>,
-    /// index into `log` of the first device write issued by the top-level finalize
-    f: usize,
     ops: Vec<ROp>,
     results: Vec<Outcome>,
     blobs: Vec<e57::Blob>,
     desc: String,
 }
 
-fn complete(p: &Program) -> Result<Complete, String> {
-    let dev = Dev::empty();
-    dev.with(|s| s.log_on = true);
-    let h = dev.handle();
-    let marker = std::rc::Rc::new(std::cell::Cell::new(usize::MAX));
-    let r = run_program_marked(dev, p, &h, &marker);
-    if r.err.is_some() || r.panic.is_some() {
-        return Err(format!("program failed: {:?}", r.err));
-    }
-    let bytes = h.snapshot();
-    let log: Vec<DevOp> = h.with(|s| s.log.clone()).into_iter().filter(|o| matches!(o, DevOp::Write { .. })).collect();
-    let f = marker.get();
+struct Complete {
+    /// device content after the last finalize
+    bytes: Vec<u8>,
+    log: Vec<DevOp>,
+    /// index into `log` of the first device write issued by the first top-level finalize
+    f: usize,
+    /// the completed files, in the order in which they existed on the device
+    done: Vec<Done>,
+}
+
+fn done_from(bytes: Vec<u8>) -> Result<Done, String> {
     let rd = E57Reader::new(Dev::new(bytes.clone())).map_err(|e| crate::harness::err_string(&e))?;
     let blobs = blob_list(&rd);
     let ops = alphabet(rd.pointclouds().len(), blobs.len());
     let desc = format!("{:?}|{:?}|{}|{}", rd.pointclouds(), rd.images(), rd.guid(), rd.xml());
     let (results, _) = fresh_results(&bytes, &ops)?;
-    Ok(Complete { bytes, log, f, ops, results, blobs, desc })
+    Ok(Done { bytes, ops, results, blobs, desc })
 }
 
-/// like run_program, but records the number of device writes logged before the top-level finalize
-fn run_program_marked(dev: Dev, p: &Program, view: &Dev, marker: &std::rc::Rc<std::cell::Cell<usize>>) -> RunResult {
-    // The program is executed in two parts on the same writer: all ops, then finalize. To learn the
-    // log position at the finalize call we run the ops with `no_finalize`-free semantics by hand.
-    let mut res = RunResult::default();
-    let r = guarded(|| {
-        let mut w = match e57::E57Writer::new(dev, &p.guid) {
-            Ok(w) => w,
-            Err(e) => return Some(crate::harness::err_string(&e)),
-        };
-        if let Err(e) = exec_ops(&mut w, p) {
-            return Some(e);
+/// `second`: operations executed after the first finalize, followed by a second finalize
+fn complete(p: &Program, second: Option<&Vec<Op>>) -> Result<Complete, String> {
+    let dev = Dev::empty();
+    dev.with(|s| s.log_on = true);
+    let h = dev.handle();
+    let mut f = usize::MAX;
+    let mut snaps: Vec<Vec<u8>> = Vec::new();
+    let r = guarded(|| -> Result<(), String> {
+        let mut w = e57::E57Writer::new(dev, &p.guid).map_err(|e| crate::harness::err_string(&e))?;
+        exec_ops(&mut w, p)?;
+        f = h.with(|s| s.log.iter().filter(|o| matches!(o, DevOp::Write { .. })).count());
+        w.finalize().map_err(|e| crate::harness::err_string(&e))?;
+        snaps.push(h.snapshot());
+        if let Some(ops2) = second {
+            let p2 = Program { guid: p.guid.clone(), ops: ops2.clone(), ..Default::default() };
+            exec_ops(&mut w, &p2)?;
+            w.finalize().map_err(|e| crate::harness::err_string(&e))?;
+            snaps.push(h.snapshot());
         }
-        marker.set(view.with(|s| s.log.iter().filter(|o| matches!(o, DevOp::Write { .. })).count()));
-        match w.finalize() {
-            Ok(()) => None,
-            Err(e) => Some(crate::harness::err_string(&e)),
-        }
+        Ok(())
     });
     match r {
-        Ok(None) => res.finalized = true,
-        Ok(Some(e)) => res.err = Some((0, "program".into(), e)),
-        Err(pi) => res.panic = Some((0, pi)),
+        Ok(Ok(())) => {}
+        Ok(Err(e)) => return Err(format!("program failed: {e}")),
+        Err(pi) => return Err(format!("program panicked at {}: {}", pi.loc, pi.msg)),
     }
-    res
+    let bytes = h.snapshot();
+    let log: Vec<DevOp> = h.with(|s| s.log.clone()).into_iter().filter(|o| matches!(o, DevOp::Write { .. })).collect();
+    let mut done = Vec::new();
+    for s in snaps {
+        done.push(done_from(s)?);
+    }
+    Ok(Complete { bytes, log, f, done })
 }
 
 /// execute the ops of a program on an existing writer (no finalize)
@@ -188,15 +207,18 @@ fn judge_image(c: &Complete, img: &[u8], before_finalize: bool, what: &dyn Fn() 
         return Some((format!("{P}/accepted-before-finalize"), format!("the reader accepts a device image from before the top-level finalize call: {}", what())));
     }
     let desc = format!("{:?}|{:?}|{}|{}", r.pointclouds(), r.images(), r.guid(), r.xml());
-    if desc != c.desc {
-        return Some((format!("{P}/accepted-image-lists-other-content"), format!("an accepted crash image lists other point clouds / images / XML than the completed file: {}", what())));
-    }
-    for (i, op) in c.ops.iter().enumerate() {
-        let out = exec(&mut r, op, &c.blobs);
-        if out.is_ok() && out != c.results[i] {
+    let Some(d) = c.done.iter().find(|d| d.desc == desc) else {
+        return Some((format!("{P}/accepted-image-lists-other-content"), format!("an accepted crash image lists other point clouds / images / XML than any completed file: {}", what())));
+    };
+    // every operation, forwards and then backwards on the same reader
+    let order: Vec<usize> = (0..d.ops.len()).chain((0..d.ops.len()).rev()).collect();
+    for i in order {
+        let op = &d.ops[i];
+        let out = exec(&mut r, op, &d.blobs);
+        if out.is_ok() && out != d.results[i] {
             return Some((
                 format!("{P}/partial-data-presented/{}", op.name().split('(').next().unwrap_or("")),
-                format!("on an accepted crash image {} returned {} but the completed file gives {}: {}", op.name(), out.short(), c.results[i].short(), what()),
+                format!("on an accepted crash image {} returned {} but the completed file gives {}: {}", op.name(), out.short(), d.results[i].short(), what()),
             ));
         }
     }
@@ -205,8 +227,22 @@ fn judge_image(c: &Complete, img: &[u8], before_finalize: bool, what: &dyn Fn() 
 
 /// every prefix k of the device write log x every byte cut c of write k
 pub fn crash(ctx: &Ctx) {
-    let p = program(ctx);
-    let c = match complete(&p) {
+    // optionally: a second top-level finalize after more changes (on programs one level shallower)
+    let re = ctx.pick("refinalize", 3);
+    let mut p = program_d(ctx, re != 0);
+    let second: Option<Vec<Op>> = match re {
+        0 => None,
+        1 => {
+            // metadata changes of unchanged serialized length; a filler moves the XML start
+            let filler = 51 * ctx.pick("xml-shift", 5);
+            p.ops.insert(0, Op::Blob(pattern(77, 4 * filler)));
+            p.ops.push(Op::CoordMeta(Some("CRS-AAAA".into())));
+            p.ops.push(Op::Creation(Some(m::DateTime { gps: 1111.5, atomic: true })));
+            Some(vec![Op::CoordMeta(Some("CRS-BBBB".into())), Op::Creation(Some(m::DateTime { gps: 2222.5, atomic: true }))])
+        }
+        _ => Some(vec![Op::Blob(pattern(78, 33)), Op::Cloud(cloud(xyz(F32), 3, 11)), Op::CoordMeta(Some("second".into()))]),
+    };
+    let c = match complete(&p, second.as_ref()) {
         Ok(c) => c,
         Err(e) => {
             ctx.violation(format!("{P}/program-failed"), format!("{e}; program {}", describe(&p)));
@@ -219,7 +255,7 @@ pub fn crash(ctx: &Ctx) {
     if nw == 0 {
         return;
     }
-    ctx.describe(|| format!("{}: {} device writes (finalize starts at write {}), crash inside write {k}: every cut 0..=len", describe(&p), nw, c.f));
+    ctx.describe(|| format!("{}{}: {} device writes (first finalize starts at write {}), crash inside write {k}: every cut 0..=len", describe(&p), second.as_ref().map(|o| format!("; then {}; finalize()", o.iter().map(describe_op).collect::<Vec<_>>().join("; "))).unwrap_or_default(), nw, c.f));
     // image before write k
     let mut base: Vec<u8> = Vec::new();
     for o in &c.log[..k] {
@@ -247,7 +283,7 @@ pub fn crash(ctx: &Ctx) {
         }
         // an image is "from before finalize" when the crash happens before write f completes its first byte
         let before = k < c.f || (k == c.f && cut == 0);
-        let complete_img = img == c.bytes;
+        let complete_img = img == c.bytes || c.done.iter().any(|d| d.bytes == img);
         let what = || format!("writes 0..{k} applied and the first {cut} of {} bytes of write {k} (at device offset {pos}); program {}", data.len(), describe(&p));
         match guarded(|| judge_image(&c, &img, before && !complete_img, &what)) {
             Err(pi) => {
